@@ -192,3 +192,257 @@ Proof.
       rewrite Em, digits_or_zero_dec by assumption. reflexivity.
     + now apply atom_lines_match.
 Qed.
+
+(* ------------------------------------------------------------------------------------------ *)
+(** * from the characters of an xyz / xyz+ text to its lines *)
+Theorem xyz_text_lines (strict : bool) L :
+  L <> [] -> Forall line_clean L ->
+  parse (if strict then "xyz" else "xyz+") (jn L +++ String nl EmptyString) = parse_xyz_lines strict L.
+Proof.
+  intros Hn Hc.
+  assert (Pre : filter_comments (s_strip (jn L +++ String nl EmptyString)) = jn L /\ stripped_lines (jn L) = L).
+  { destruct L as [|x L]; [contradiction|].
+    assert (Hx : line_clean x) by (inversion Hc; assumption).
+    set (J := jn (x :: L)).
+    assert (Jfirst : first_is c_is_space J = false) by (unfold J; rewrite first_is_jn by apply Hx; apply Hx).
+    assert (Jlast : last_is c_is_space J = false) by (unfold J; rewrite last_is_jn by assumption; apply (last_clean L x Hc)).
+    assert (Jne : is_empty J = false) by (apply jn_nonempty, Hx).
+    assert (Strip : s_strip (J +++ String nl EmptyString) = J).
+    { unfold s_strip.
+      assert (Lf : s_lstrip (J +++ String nl EmptyString) = J +++ String nl EmptyString) by (destruct J; [discriminate | simpl in Jfirst |- *; now rewrite Jfirst]).
+      rewrite Lf, rstrip_app_nl. now apply rstrip_id. }
+    split.
+    - rewrite Strip. apply filter_comments_id, hash_jn, Hc.
+    - unfold stripped_lines, J. rewrite (split_join _ Hn Hc).
+      clear - Hc. induction Hc as [|y L' Hy _ IH]; [reflexivity|]. simpl. now rewrite (strip_id y Hy), IH. }
+  destruct Pre as [P1 P2]. unfold parse.
+  destruct strict.
+  - change (s_eqb "xyz" "xyz") with true. cbv iota. unfold parse_xyz. now rewrite P1, P2.
+  - change (s_eqb "xyz+" "xyz") with false. change (s_eqb "xyz+" "xyz+") with true. cbv iota. unfold parse_xyz. now rewrite P1, P2.
+Qed.
+
+(* ------------------------------------------------------------------------------------------ *)
+(** * tokens of a rendered atom line, for any nucleus recogniser *)
+Lemma atom_match_render (nuc : string -> bool) w p v :
+  token_ok (av_label v) -> nuc (av_label v) = true ->
+  (0 <= bm (av_x v))%Z -> (0 <= bm (av_y v))%Z -> (0 <= bm (av_z v))%Z ->
+  atom_match nuc (render_atom w p false false v) = Some (av_label v, dn p (av_x v), dn p (av_y v), dn p (av_z v)).
+Proof.
+  intros Tk Nuc Hx Hy Hz.
+  pose proof (tk_nonempty _ Tk) as Ln. pose proof (tk_nosep _ Tk) as Ls.
+  set (FX := fmt_f p (av_x v)). set (FY := fmt_f p (av_y v)). set (FZ := fmt_f p (av_z v)).
+  assert (NX : s_any is_sepc FX = false /\ is_empty FX = false) by (split; [apply numeric_no_sep, fmt_f_numch | now apply fmt_f_nonempty]).
+  assert (NY : s_any is_sepc FY = false /\ is_empty FY = false) by (split; [apply numeric_no_sep, fmt_f_numch | now apply fmt_f_nonempty]).
+  assert (NZ : s_any is_sepc FZ = false /\ is_empty FZ = false) by (split; [apply numeric_no_sep, fmt_f_numch | now apply fmt_f_nonempty]).
+  rewrite atom_line_shape. fold FX FY FZ.
+  set (R3 := s_repeat sp (w - String.length FZ) +++ FZ).
+  set (R2 := s_repeat sp (w - String.length FY) +++ FY +++ s_repeat sp 0 +++ two_sp +++ R3).
+  set (R1 := s_repeat sp (w - String.length FX) +++ FX +++ s_repeat sp 0 +++ two_sp +++ R2).
+  set (line := av_label v +++ s_repeat sp (w - String.length (av_label v)) +++ two_sp +++ R1).
+  assert (T3 : toks R3 = [FZ]) by (unfold R3; rewrite toks_spaces; apply toks_last; tauto).
+  assert (T2 : toks R2 = [FY; FZ]) by (unfold R2; rewrite toks_spaces, toks_field by tauto; now rewrite T3).
+  assert (T1 : toks R1 = [FX; FY; FZ]) by (unfold R1; rewrite toks_spaces, toks_field by tauto; now rewrite T2).
+  assert (T0 : toks line = [av_label v; FX; FY; FZ]) by (unfold line; rewrite toks_field by assumption; now rewrite T1).
+  assert (Ed : edges_ok line = true).
+  { unfold edges_ok. apply andb_true_iff. split; apply negb_true_iff.
+    - unfold line. apply first_is_tok; assumption.
+    - unfold line, R1, R2, R3. rewrite <- !app_assoc_s. rewrite last_is_app by tauto. apply last_is_none; tauto. }
+  unfold atom_match. rewrite Ed, T0, Nuc. unfold FX, FY, FZ. rewrite !parse_number_fmt by assumption. reflexivity.
+Qed.
+
+(* ------------------------------------------------------------------------------------------ *)
+(** * cleanliness of the header lines *)
+Record name_ok (s : string) : Prop := {
+  nm_nl : s_any is_nl s = false; nm_hash : s_any is_hash s = false;
+  nm_last : last_is c_is_space s = false; nm_nonempty : is_empty s = false
+}.
+
+Lemma digits_plain d : s_all c_is_digit d = true ->
+  s_any is_nl d = false /\ s_any is_hash d = false /\ s_any c_is_space d = false.
+Proof. intro H. apply numeric_plain. now apply (s_all_weaken c_is_digit numch _ digit_numch). Qed.
+
+Lemma count_line_clean d : s_all c_is_digit d = true -> is_empty d = false -> line_clean d /\ line_clean (d +++ " au").
+Proof.
+  intros Hd Hn. destruct (digits_plain d Hd) as [A [B C]].
+  assert (F : first_is c_is_space d = false) by (destruct d as [|c r]; [discriminate|]; simpl in *; now apply orb_false_iff in C as [C _]).
+  split; constructor; try assumption.
+  - now apply last_is_none.
+  - rewrite s_any_app, A. reflexivity.
+  - rewrite s_any_app, B. reflexivity.
+  - destruct d; [discriminate | exact F].
+  - rewrite last_is_app by reflexivity. reflexivity.
+  - destruct d; [discriminate | reflexivity].
+Qed.
+
+Lemma title_line_clean c mu name : name_ok name ->
+  line_clean (dec_of_Z c +++ String sp (dec_of_Z mu) +++ String sp name).
+Proof.
+  intros [N1 N2 N3 N4].
+  destruct (numeric_plain _ (dec_of_Z_numch c)) as [C1 [C2 C3]].
+  destruct (numeric_plain _ (dec_of_Z_numch mu)) as [M1 [M2 M3]].
+  pose proof (dec_of_Z_nonempty c) as Ec.
+  constructor.
+  - rewrite s_any_app. cbn [s_any]. rewrite s_any_app. cbn [s_any]. now rewrite C1, M1, N1.
+  - rewrite s_any_app. cbn [s_any]. rewrite s_any_app. cbn [s_any]. now rewrite C2, M2, N2.
+  - apply first_is_tok; assumption.
+  - rewrite last_is_app by reflexivity.
+    change (String sp (dec_of_Z mu) +++ String sp name) with (String sp EmptyString +++ (dec_of_Z mu +++ String sp name)).
+    rewrite last_is_app by (destruct (dec_of_Z mu); reflexivity).
+    rewrite last_is_app by reflexivity.
+    change (String sp name) with (String sp EmptyString +++ name). rewrite last_is_app by assumption. exact N3.
+  - destruct (dec_of_Z c); [discriminate | reflexivity].
+Qed.
+
+(* ------------------------------------------------------------------------------------------ *)
+(** * xyz+ on characters *)
+Lemma count_line_text n w r : (0 <= n)%Z ->
+  (w, r) = ("au", "Bohr")%string \/ (w, r) = ("", "Angstrom")%string ->
+  let l0 := s_rstrip (dec_of_Z n +++ " " +++ show_opt (Some w)) in
+  line_clean l0
+  /\ xyz1_match l0 = Some (if s_eqb r "Bohr" then Some "Bohr"%string else None)
+  /\ (s_eqb r "Angstrom" = true -> all_digits l0 = true).
+Proof.
+  intros Hn Hw.
+  assert (En : dec_of_Z n = dec_of_nonneg n) by (unfold dec_of_Z; destruct (n <? 0)%Z eqn:E; [apply Z.ltb_lt in E; lia | reflexivity]).
+  pose proof (dec_nonneg_digits n) as Dn. pose proof (dec_nonneg_nonempty n) as Nn. rewrite <- En in Dn, Nn.
+  destruct (count_line_clean _ Dn Nn) as [C1 C2].
+  destruct Hw as [E|E]; inversion E; subst w r; cbn [show_opt]; cbv zeta.
+  - assert (L0 : s_rstrip (dec_of_Z n +++ " " +++ "au") = dec_of_Z n +++ " au").
+    { apply rstrip_id; [|destruct (dec_of_Z n); [discriminate | reflexivity]].
+      change (" " +++ "au")%string with (" au")%string. rewrite last_is_app by reflexivity. reflexivity. }
+    rewrite L0. split; [exact C2 | split; [now apply xyz1_count_au | discriminate]].
+  - assert (L0 : s_rstrip (dec_of_Z n +++ " " +++ "") = dec_of_Z n).
+    { change (" " +++ "")%string with (String sp EmptyString). now apply rstrip_digits_space. }
+    rewrite L0. split; [exact C1 | split; [now apply xyz1_count_only |]].
+    intros _. unfold all_digits. now rewrite Nn, Dn.
+Qed.
+
+Theorem roundtrip_xyzplus cfg m text kw w r :
+  s_lower (w_dtype cfg) = "xyz+"%string -> w_afmt cfg = None -> w_gfmt cfg = None ->
+  to_string_model cfg m = Ok (text, kw) -> unit_word_xyz (units_of e_xyzp cfg) = Some (w, r) ->
+  xyzp_fits cfg m -> name_ok (mol_name m) ->
+  exists atoms,
+    atoms_formatter "{elem}" "@{elem}" (factor_of e_xyzp cfg m) (m_atoms m) = Ok atoms
+    /\ parse "xyz+" text = Ok (result_xyz r (Some (dz (m_chg m), m_mult m)) (map (atomd_of (w_prec cfg)) atoms)).
+Proof.
+  intros Hd Haf Hgf H Hu Hf Hname. unfold to_string_model in H. rewrite Hd, find_xyzp in H.
+  apply obind_ok in H as [[ls kw'] [Hl H]]. inversion H; subst text kw'; clear H.
+  destruct (roundtrip_xyzplus_lines cfg m ls kw w r Hd Haf Hgf Hl Hu Hf) as [atoms [Ha Hp]].
+  exists atoms. split; [assumption|]. rewrite <- Hp.
+  unfold render_text. change (wt_xyze e_xyzp) with false. change (wt_lower e_xyzp) with false.
+  fold (rl cfg). cbn [fst]. fold (jn (map (rl cfg) ls)).
+  apply (xyz_text_lines false).
+  - destruct (xyzp_to_lines cfg m ls kw Hd Haf Hgf Hl) as [at' [lbl [_ [_ ->]]]]. discriminate.
+  - destruct Hf as [Fa Ff [Fm1 Fm2]].
+    destruct (xyzp_to_lines cfg m ls kw Hd Haf Hgf Hl) as [at' [lbl [Ha' [Hlbl ->]]]].
+    rewrite Ha in Ha'. inversion Ha'; subst at'; clear Ha'.
+    rewrite (xyzp_unit_label _ w r Hu) in Hlbl. inversion Hlbl; subst lbl; clear Hlbl.
+    pose proof (xyzp_views _ _ _ Ha Fa Ff) as Vok.
+    cbn [map]. unfold rl at 1 2. cbn [render_line].
+    constructor; [|constructor].
+    + apply (count_line_text (zlen atoms) w r); [unfold zlen; lia | now apply unit_word_xyz_cases with (u := units_of e_xyzp cfg)].
+    + change ("" +++ dec_of_Z (m_chg m) +++ String sp (dec_of_Z (m_mult m)) +++ " " +++ mol_name m)
+        with (dec_of_Z (m_chg m) +++ String sp (dec_of_Z (m_mult m)) +++ String sp (mol_name m)).
+      now apply title_line_clean.
+    + now apply atom_lines_clean.
+Qed.
+
+(* ------------------------------------------------------------------------------------------ *)
+(** * strict xyz on characters: real atoms under plain element symbols (or atomic numbers), Angstrom *)
+Definition e_xyz : wt_entry := match wt_find "xyz" wt_table with Some e => e | None => Build_wt_entry "" "" "" FAbsent "" FAbsent [] UNoMap false false false [] end.
+Lemma find_xyz : wt_find "xyz" wt_table = Some e_xyz.
+Proof. vm_compute. reflexivity. Qed.
+
+Definition atom_fits_xyz (a : atom) : Prop :=
+  a_real a = true /\ label_ok (a_elem a) /\ is_simple_nucleus (a_elem a) = true
+  /\ (0 <= bm (a_x a))%Z /\ (0 <= bm (a_y a))%Z /\ (0 <= bm (a_z a))%Z.
+
+Definition strict_view_ok (v : atom_view) : Prop := view_ok v /\ is_simple_nucleus (av_label v) = true.
+
+Lemma xyz_views f l : forall atoms,
+  atoms_formatter "{elem}" "@{elem}" f l = Ok atoms -> Forall atom_fits_xyz l -> (0 <= bm f)%Z -> Forall strict_view_ok atoms.
+Proof.
+  induction l as [|a l IH]; intros atoms H Hf Hb; cbn [atoms_formatter] in H.
+  - inversion H; subst. constructor.
+  - inversion Hf as [|a0 l0 [R [Hl [Hs [Hx [Hy Hz]]]]] Hf']; subst. rewrite R in H.
+    rewrite xyzp_format_real in H. cbn [obind] in H. apply obind_ok in H as [vs [Hv H]]. inversion H; subst.
+    constructor; [|now apply IH]. unfold strict_view_ok, view_ok, convert; simpl.
+    split; [split; [exact Hl | repeat split; apply b64mul_nonneg; assumption] | exact Hs].
+Qed.
+
+Lemma xyz_unit_label u w r : unit_word_xyz u = Some (w, r) -> unit_label e_xyz u = Ok (Some w).
+Proof.
+  unfold unit_word_xyz. intro H. unfold unit_label. cbv zeta.
+  destruct (s_eqb (s_lower u) "bohr") eqn:E1.
+  - apply String.eqb_eq in E1. rewrite E1. inversion H; subst. vm_compute. reflexivity.
+  - destruct (s_eqb (s_lower u) "angstrom") eqn:E2; [|discriminate].
+    apply String.eqb_eq in E2. rewrite E2. inversion H; subst. vm_compute. reflexivity.
+Qed.
+
+Lemma xyz_to_lines cfg m ls kw :
+  s_lower (w_dtype cfg) = "xyz"%string -> w_afmt cfg = None -> w_gfmt cfg = None -> to_lines cfg m = Ok (ls, kw) ->
+  exists atoms lbl,
+    atoms_formatter "{elem}" "@{elem}" (factor_of e_xyz cfg m) (m_atoms m) = Ok atoms
+    /\ unit_label e_xyz (units_of e_xyz cfg) = Ok lbl
+    /\ ls = LText (s_rstrip (dec_of_Z (zlen atoms) +++ " " +++ show_opt lbl))
+            :: LChgMult "" (m_chg m) (m_mult m) (" " +++ mol_name m) :: map LAtom atoms.
+Proof.
+  intros Hd Haf Hgf H. unfold to_lines in H. rewrite Hd, find_xyz in H.
+  change (s_eqb "xyz" "nglview-sdf") with false in H. change (s_eqb "xyz" "turbomole") with false in H.
+  cbv iota in H. cbn [obind] in H.
+  change (wt_formatter e_xyz) with true in H. cbv iota in H.
+  rewrite Haf, Hgf in H.
+  change (pick_format (wt_afmt e_xyz) (wt_afmode e_xyz) None) with "{elem}"%string in H.
+  change (pick_format (wt_gfmt e_xyz) (wt_gfmode e_xyz) None) with "@{elem}"%string in H.
+  apply obind_ok in H as [atoms [Ha H]]. apply obind_ok in H as [ls' [Hb H]]. apply obind_ok in H as [kw' [_ H]].
+  inversion H; subst ls' kw'; clear H.
+  unfold branch_lines in Hb. change (wt_dtype e_xyz) with "xyz"%string in Hb.
+  cbn -[unit_label units_of e_xyz s_rstrip dec_of_Z mol_name] in Hb.
+  apply obind_ok in Hb as [lbl [Hu Hb]]. inversion Hb; subst ls; clear Hb.
+  exists atoms, lbl. repeat split; assumption.
+Qed.
+
+Lemma strict_atom_lines_match cfg atoms :
+  Forall strict_view_ok atoms ->
+  Forall2 (fun l at_ => atom_match is_simple_nucleus l = Some at_) (map (rl cfg) (map LAtom atoms)) (map (atomd_of (w_prec cfg)) atoms).
+Proof.
+  induction 1 as [|v atoms [[Hl [Hx [Hy Hz]]] Hs] _ IH]; simpl; constructor; [|exact IH].
+  unfold rl, atomd_of. cbn [render_line]. apply atom_match_render; try assumption. apply Hl.
+Qed.
+
+Record xyz_fits (cfg : wcfg) (m : molrec) : Prop := {
+  sf_atoms : Forall atom_fits_xyz (m_atoms m);
+  sf_factor : (0 <= bm (factor_of e_xyz cfg m))%Z;
+  sf_name : name_ok (mol_name m)
+}.
+
+(** strict xyz carries elements and coordinates only (the title line is ignored, the unit must be Angstrom) *)
+Theorem roundtrip_xyz cfg m text kw :
+  s_lower (w_dtype cfg) = "xyz"%string -> w_afmt cfg = None -> w_gfmt cfg = None ->
+  to_string_model cfg m = Ok (text, kw) -> unit_word_xyz (units_of e_xyz cfg) = Some ("", "Angstrom")%string ->
+  xyz_fits cfg m ->
+  exists atoms,
+    atoms_formatter "{elem}" "@{elem}" (factor_of e_xyz cfg m) (m_atoms m) = Ok atoms
+    /\ parse "xyz" text = Ok (result_xyz "Angstrom" None (map (atomd_of (w_prec cfg)) atoms)).
+Proof.
+  intros Hd Haf Hgf H Hu [Fa Ff Hname]. unfold to_string_model in H. rewrite Hd, find_xyz in H.
+  apply obind_ok in H as [[ls kw'] [Hl H]]. inversion H; subst text kw'; clear H.
+  destruct (xyz_to_lines cfg m ls kw Hd Haf Hgf Hl) as [atoms [lbl [Ha [Hlbl ->]]]].
+  exists atoms. split; [assumption|].
+  rewrite (xyz_unit_label _ _ _ Hu) in Hlbl. inversion Hlbl; subst lbl; clear Hlbl.
+  pose proof (xyz_views _ _ _ Ha Fa Ff) as Vok.
+  assert (Vok' : Forall view_ok atoms) by (eapply Forall_impl; [|exact Vok]; intros v [V _]; exact V).
+  unfold render_text. change (wt_xyze e_xyz) with false. change (wt_lower e_xyz) with false.
+  fold (rl cfg). cbn [fst]. fold (jn (map (rl cfg) (LText (s_rstrip (dec_of_Z (zlen atoms) +++ " " +++ show_opt (Some ""%string)))
+            :: LChgMult "" (m_chg m) (m_mult m) (" " +++ mol_name m) :: map LAtom atoms))).
+  destruct (count_line_text (zlen atoms) "" "Angstrom" ltac:(unfold zlen; lia) (or_intror eq_refl)) as [C0 [_ C2]].
+  rewrite (xyz_text_lines true).
+  - cbn [map]. unfold rl at 1 2. cbn [render_line].
+    apply xyz_lines; [now apply C2 | now apply strict_atom_lines_match].
+  - discriminate.
+  - cbn [map]. unfold rl at 1 2. cbn [render_line]. constructor; [exact C0|]. constructor.
+    + change ("" +++ dec_of_Z (m_chg m) +++ String sp (dec_of_Z (m_mult m)) +++ " " +++ mol_name m)
+        with (dec_of_Z (m_chg m) +++ String sp (dec_of_Z (m_mult m)) +++ String sp (mol_name m)).
+      now apply title_line_clean.
+    + now apply atom_lines_clean.
+Qed.
